@@ -105,6 +105,13 @@ var propDefs = map[string]*PropDef{
 			"lexing of the operator symbols (longest match) belongs to the lexer properties",
 		},
 	},
+	"C08": {
+		ID: "C08", Funcs: "all", Floor: 10,
+		Unmech: []string{
+			"that the chain of steps denotes 'exactly the value obtained by following its steps' is the composition of the per-step clauses (each step performs one reflect operation with the written or evaluated key on the current value) over the loop; reflect itself is library code under assumed contracts (kind-indexed preconditions = its documented panic conditions)",
+			"function calls: the argument-count and argument-type checks are proved to precede Call for the count; per-argument assignability is checked by argumentFits and not carried to Call's contract",
+		},
+	},
 	"C09": {
 		ID: "C09", Funcs: "all", Floor: 30,
 		Unmech: []string{
